@@ -11,8 +11,16 @@ Oracle (model-independent), on the implementation's behaviour:
     is unchanged, or was "" and is now " "; a non-empty head/tail is never altered,
   * a second application changes nothing (full structural comparison),
   * the argument is untouched (snapshot before / after),
-  * on layout-free trees whose shape the grammar can express: parser.parse(str(auto_head_tail(t))) == t.
+  * on trees whose shape the grammar can express and whose heads/tails are blank text (layout-free trees AND
+    trees with partial layout, e.g. parsed queries edited by hand): parser.parse(str(auto_head_tail(t))) == t.
     Failures are classified by executable predicates on the INPUT (F4, F15); anything else is a violation.
+
+Inputs: single calls on fresh trees (corpus, random, grammar-shaped); parsed queries edited by hand (operands
+appended / inserted / replaced by layout-free nodes, .expr/.a/.low/.high reassigned, hand-made parents), so
+that positioned composite nodes have children without head/tail; call HISTORIES: 2-3 consecutive calls of the
+module-level `auto_head_tail` on ONE root object edited in place between the calls, nothing else touching the
+transformer in between (`call` records, `judge` runs the oracle afterwards); every step is compared with the
+model on the tree as it is at that moment and judged against a deep copy taken right before the call.
 """
 import copy
 import re
@@ -364,69 +372,223 @@ def only_fills_empty(T, before, after):
     return None
 
 
-def well_formed(T, t):
-    """what every luqum constructor establishes (the model's wf_node): nothing to check on real objects unless
-    attributes were re-assigned after construction; kept for the record"""
-    return True
+def ws_layout(t):
+    """every head and tail is blank text (what the parser produces); pos/size are free"""
+    return all((n.head == "" or n.head.isspace()) and (n.tail == "" or n.tail.isspace())
+               for _, n in gentree.all_nodes(t))
+
+
+# ------------------------------------------------------------------ in-place edits (histories, parsed trees)
+
+def node_at(t, path):
+    for i in path:
+        t = t.children[i]
+    return t
+
+
+def apply_edit(T, root, edit):
+    """edit = (path, op, index, node): in-place modification of the node at `path` (the root object is kept)"""
+    path, op, i, new = edit
+    n = node_at(root, path)
+    cs = list(n.children)
+    if op == "append":
+        cs.append(new)
+    elif op == "insert":
+        cs.insert(i, new)
+    elif op == "replace":
+        cs[i] = new
+    elif op == "remove":
+        del cs[i]
+    elif op == "wrap-not":
+        cs[i] = T.Not(cs[i])
+    elif op == "wrap-group":
+        cs[i] = T.Group(cs[i])
+    elif op == "wrap-and":
+        cs[i] = T.Group(T.AndOperation(cs[i], new))
+    else:
+        raise AssertionError(op)
+    n.children = cs       # generic setter: .expr / .a / .low,.high / .term / operands
+
+
+def describe_edit(edit):
+    path, op, i, new = edit
+    return "%s at %r index %r%s" % (op, list(path), i, "" if new is None else " with " + gentree.describe(new)[:200])
+
+
+def fresh_like(T, gg, r, old, parent):
+    """a layout-free node that may stand where `old` stands under `parent` (a guess; the caller checks)"""
+    k = type(parent)
+    if k is T.Range:
+        return gg.bound()
+    if k in (T.From, T.To):
+        return gg.pt()
+    if k is T.Fuzzy:
+        return gg.word(False)
+    if k is T.Proximity:
+        return gg.phrase()
+    if k is T.Boost:
+        return gg.boostable(1)
+    if k in (T.Group, T.FieldGroup):
+        return gg.expr(1)
+    if k is T.SearchField:
+        return T.FieldGroup(gg.expr(1)) if r.random() < 0.2 else gg.unary(1, r.choice(["word", "phrase", "range", "not"]))
+    return gg.unary(1)
+
+
+def random_edit(T, gg, r, root):
+    """one random in-place edit somewhere in the tree (root included); None if the tree has no inner node"""
+    inner = [(p, n) for p, n in gentree.all_nodes(root) if n.children]
+    if not inner:
+        return None
+    path, n = r.choice(inner)
+    nc = len(n.children)
+    i = r.randrange(nc)
+    if isinstance(n, T.BaseOperation):
+        op = r.choice(["append", "append", "insert", "replace", "remove" if nc > 2 else "append", "wrap-not",
+                       "wrap-group", "wrap-and"])
+    else:
+        op = r.choice(["replace", "replace", "replace", "wrap-group" if type(n) in (T.Plus, T.Not, T.Prohibit) else
+                       "replace"])
+    new = None
+    if op in ("append", "insert", "replace", "wrap-and"):
+        new = fresh_like(T, gg, r, n.children[i], n)
+    return (path, op, i, new)
+
+
+def edit_keeping_shape(T, gg, r, root, tries=8):
+    """a random edit, preferring one after which the tree is still a shape the grammar can express (tested on
+    a deep copy; after `tries` failures any edit is taken: those trees still feed the other oracles)"""
+    edit = None
+    for _ in range(tries):
+        edit = random_edit(T, gg, r, root)
+        if edit is None:
+            return None
+        trial = copy.deepcopy(root)
+        try:
+            apply_edit(T, trial, (edit[0], edit[1], edit[2], copy.deepcopy(edit[3])))
+        except ValueError:
+            continue
+        if expressible(T, trial):
+            return edit
+    return edit
+
+
+PARSED_QUERIES = ["a OR b", "a AND b", "a b", "a OR (b AND c)", "f:(a b)", "a AND NOT b", "f:[1 TO 5] g:{a TO b}",
+                  "NOT a", "  a   AND\tb  ", "x:(+a -b) OR NOT (c AND d)", "[a TO b]", "(a OR b) AND c",
+                  'foo:(a OR "b c") AND x~ AND y^1.50', "a OR b OR c", "+a -b c", "NOT (a b)", "f:[* TO 10}"]
+
+
+def parsed_corpus(T, parser):
+    """the hand edits of a parsed query that leave positioned composite nodes with children lacking layout"""
+    W, P = T.Word, T.Phrase
+    out = []
+
+    def first_op(t):
+        while not isinstance(t, T.BaseOperation):
+            t = t.children[0]
+        return t
+    for q in ("a OR b", "a AND b", "a b", "f:(a b)", "a OR b OR c"):
+        t = parser.parse(q)
+        o = first_op(t)
+        o.children = list(o.children) + [W("z")]
+        out.append((t, "parsed %r + operand" % q))
+        t = parser.parse(q)
+        o = first_op(t)
+        o.children = [T.Prohibit(W("y"))] + list(o.children)
+        out.append((t, "parsed %r + first operand" % q))
+    t = parser.parse("a AND NOT b")
+    t.children[1].children = [P('"x y"')]
+    out.append((t, "parsed NOT, operand replaced"))
+    t = parser.parse("NOT b")
+    t.children = [W("c")]
+    out.append((t, "parsed NOT root, operand replaced"))
+    t = parser.parse("f:[1 TO 5] g:{a TO b}")
+    t.children[0].expr.children = [W("2"), W("*")]
+    t.children[1].expr.children = [W("c", tail="  "), P('"d"')]
+    out.append((t, "parsed ranges, bounds replaced"))
+    t = parser.parse("[1 TO 5]")
+    t.children = [W("2"), t.children[1]]
+    out.append((t, "parsed range root, low replaced"))
+    # control: hand-made parents around parsed sub-trees
+    out.append((T.Group(T.OrOperation(parser.parse("a"), parser.parse('"b c"'), T.Not(parser.parse("d")))),
+                "hand-made parents around parsed operands"))
+    out.append((T.AndOperation(parser.parse("(a OR b)"), T.Not(parser.parse("c"))), "hand-made AND of parsed"))
+    return out
 
 
 def correspond(model_ok, res):
     import luqum.tree as T
     from luqum.parser import parser
-    from luqum.auto_head_tail import auto_head_tail as aht
+    from luqum.auto_head_tail import auto_head_tail as aht     # the module-level instance, as users call it
     r = lib.rng("C13")
     quick = lib.tier() == "quick"
-    n_rand, n_gram = (240, 600) if quick else (2400, 6000)
+    n_rand, n_gram, n_hist, n_parsed = (240, 600, 160, 260) if quick else (2400, 6000, 1600, 2600)
     g_layout = gentree.Gen(r, T, layout=0.35, odd=0.2, positions=0.2)
     g_free = gentree.Gen(r, T, layout=0.0, odd=0.1)
     gg = GrammarGen(r, T)
-    trees = [(t, "corpus") for t in corpus(T)]
-    trees += [(g_layout.tree(r.randrange(0, 5)), "partial-layout") for _ in range(n_rand)]
-    trees += [(g_free.tree(r.randrange(0, 4)), "layout-free-any-shape") for _ in range(n_rand // 2)]
-    trees += [(gg.expr(r.randrange(0, 4)), "grammar-shaped") for _ in range(n_gram)]
 
     cases, payloads = [], []
     seen = set()
-    dist = {"kind": {}, "aht_raises": 0, "expressible_layout_free": 0, "roundtrip_holds": 0, "f4": 0, "f15": 0,
-            "unmodelled": 0, "filled_somewhere": 0}
-    for tree, kind in trees:
-        desc = gentree.describe(tree)[:1500]
+    dist = {"kind": {}, "aht_raises": 0, "expressible_layout_free": 0, "expressible_blank_layout": 0,
+            "roundtrip_holds": 0, "f4": 0, "f15": 0, "unmodelled": 0, "filled_somewhere": 0,
+            "history_steps": 0, "positioned_parent_of_bare_child": 0}
+
+    def call(tree):
+        """ONE call of auto_head_tail and nothing else that could touch the transformer: the input is serialised
+        and deep-copied before, the argument snapshotted before and after.  Judged later by `judge`."""
+        rec = {"desc": gentree.describe(tree)[:1500]}
         try:
-            before = lib.g_item(tree)
+            rec["before"] = lib.g_item(tree)
         except lib.Unmodelled:
-            dist["unmodelled"] += 1
-            continue
-        dist["kind"][kind] = dist["kind"].get(kind, 0) + 1
-        snap = snapshot(T, tree)
-        work = tree
-        keep = copy.deepcopy(tree)
-        pay = {"tree": desc, "kind": kind, "gallina": before[:4000]}
+            rec["before"] = None
+        rec["snap"] = snapshot(T, tree)
+        rec["keep"] = copy.deepcopy(tree)
+        rec["out"], rec["err"] = None, None
         try:
-            out = aht(work)
-        except IndexError as e:
-            out, exc = None, e
+            rec["out"] = aht(tree)
+        except IndexError:
+            rec["err"] = "IndexError"
         except Exception as e:     # any other exception is outside the model
-            res.failures.append((dict(pay, why="auto_head_tail raised %r" % (e,)), None))
-            continue
-        if snapshot(T, work) != snap:
+            rec["err"] = repr(e)
+        rec["snap_after"] = snapshot(T, tree)
+        return rec
+
+    def judge(rec, kind, extra):
+        """model case + the oracle on one recorded call (may call auto_head_tail freely)"""
+        keep, out = rec["keep"], rec["out"]
+        pay = dict(extra, tree=rec["desc"], kind=kind, gallina=(rec["before"] or "")[:4000])
+        if rec["before"] is None:
+            dist["unmodelled"] += 1
+            return
+        dist["kind"][kind] = dist["kind"].get(kind, 0) + 1
+        if rec["err"] not in (None, "IndexError"):
+            res.failures.append((dict(pay, why="auto_head_tail raised %s" % rec["err"]), None))
+            return
+        if rec["snap_after"] != rec["snap"]:
             res.failures.append((dict(pay, why="the argument was modified"), None))
-        exp_free = layout_free(keep) and expressible(T, keep)
+        exp = expressible(T, keep)
+        exp_free = exp and layout_free(keep)
+        exp_ws = exp and ws_layout(keep)
         f4, f15 = f4_pattern(T, keep), f15_pattern(T, aht, keep)
+        if any(n.pos is not None and n.children and any(c.head == "" and c.tail == "" for c in n.children)
+               for _, n in gentree.all_nodes(keep)):
+            dist["positioned_parent_of_bare_child"] += 1
         rt = None
         if out is None:
             dist["aht_raises"] += 1
-            # the property's "equal to the input" presupposes a result; the guard is stated in the theorems:
-            # an AND/OR/Bool operation without operand.  An expressible tree never raises.
-            if exp_free:
+            # "equal to the input" presupposes a result; the theorems state the guard: an AND/OR/Bool operation
+            # without operand.  An expressible tree never raises.
+            if exp:
                 res.failures.append((dict(pay, why="auto_head_tail raised IndexError on an expressible tree"), None))
             expected = "None"
         else:
             if not (out == keep):
-                res.failures.append((dict(pay, why="result != input"), None))
+                res.failures.append((dict(pay, why="result != input: result is %s" % gentree.describe(out)[:600]),
+                                     None))
             why = only_fills_empty(T, keep, out)
             if why:
                 res.failures.append((dict(pay, why=why), None))
-            elif snapshot(T, out) != [(p, f, h, tl, None) for p, f, h, tl, _ in snap]:
+            elif snapshot(T, out) != [(p, f, h, tl, None) for p, f, h, tl, _ in rec["snap"]]:
                 dist["filled_somewhere"] += 1
             try:
                 again = aht(out)
@@ -441,27 +603,136 @@ def correspond(model_ok, res):
                 rt_why = "parses to %s" % gentree.describe(back)[:600]
             except Exception as e:
                 rt, rt_why = False, "parser raised %r" % (e,)
-            if exp_free:
-                dist["expressible_layout_free"] += 1
+            if exp_ws:
+                # layout-free trees, and trees with partial layout whose heads/tails are blank text (parsed
+                # queries edited by hand): the printed result must parse back to the input
+                dist["expressible_layout_free" if exp_free else "expressible_blank_layout"] += 1
                 if rt:
                     dist["roundtrip_holds"] += 1
                 else:
                     fid = "F4" if f4 else "F15" if f15 else None
-                    dist["f4" if f4 else "f15" if f15 else "unclassified"] = \
-                        dist.get("f4" if f4 else "f15" if f15 else "unclassified", 0) + 1
+                    key = "f4" if f4 else "f15" if f15 else "unclassified"
+                    dist[key] = dist.get(key, 0) + 1
                     res.failures.append((dict(pay, why="round trip fails: %r %s" % (s, rt_why)), fid))
-            expected = "(Some %s)" % lib.g_item(out)
+            try:
+                expected = "(Some %s)" % lib.g_item(out)
+            except lib.Unmodelled:
+                dist["unmodelled"] += 1
+                return
         cases.append("(%s, %s, (%s, %s, %s), %s)" % (
-            before, expected, lib.g_bool(exp_free), lib.g_bool(f4), lib.g_bool(f15),
+            rec["before"], expected, lib.g_bool(exp_free), lib.g_bool(f4), lib.g_bool(f15),
             "None" if rt is None else "(Some %s)" % lib.g_bool(rt)))
         payloads.append(pay)
-        if desc not in seen and gentree.count_nodes(tree) > 1:
-            seen.add(desc)
+        if rec["desc"] not in seen and gentree.count_nodes(keep) > 1:
+            seen.add(rec["desc"])
+
+    # ---- 1. single calls on fresh trees
+    trees = [(t, "corpus") for t in corpus(T)]
+    trees += [(g_layout.tree(r.randrange(0, 5)), "partial-layout") for _ in range(n_rand)]
+    trees += [(g_free.tree(r.randrange(0, 4)), "layout-free-any-shape") for _ in range(n_rand // 2)]
+    trees += [(gg.expr(r.randrange(0, 4)), "grammar-shaped") for _ in range(n_gram)]
+    for tree, kind in trees:
+        judge(call(tree), kind, {})
+
+    # ---- 2. parsed queries edited by hand: positioned nodes with layout around nodes without
+    def parsed_tree():
+        """a parsed query (None if the text is not accepted): the printed form of a grammar-shaped tree, or a
+        fixed query, sometimes with wider blanks"""
+        if r.random() < 0.3:
+            s = r.choice(PARSED_QUERIES)
+        else:
+            try:
+                s = str(aht(gg.expr(r.randrange(1, 4))))
+            except Exception:
+                return None, None
+        if r.random() < 0.4:
+            s = "".join(r.choice([" ", "  ", "\t", " \n"]) if c == " " else c for c in s)
+        try:
+            return parser.parse(s), s
+        except Exception:
+            return None, s
+
+    for tree, label in parsed_corpus(T, parser):
+        judge(call(tree), "parsed-edited-corpus", {"built": label})
+    made = 0
+    while made < n_parsed:
+        tree, src = parsed_tree()
+        if tree is None:
+            continue
+        made += 1
+        edits = []
+        for _ in range(r.choice([1, 1, 2, 3])):
+            e = edit_keeping_shape(T, gg, r, tree)
+            if e is None:
+                break
+            try:
+                apply_edit(T, tree, e)
+            except ValueError:
+                continue
+            edits.append(describe_edit(e))
+        if r.random() < 0.2:      # hand-made parents around the (edited) parsed tree
+            tree = r.choice([lambda x: T.Group(x), lambda x: T.Not(T.Group(x)),
+                             lambda x: T.OrOperation(T.Group(x), gg.unary(1)),
+                             lambda x: T.UnknownOperation(gg.word(), T.Group(x))])(tree)
+            edits.append("wrapped in hand-made parents")
+        judge(call(tree), "parsed-edited", {"parsed_from": src, "edits": edits})
+
+    # ---- 3. call histories on ONE root object edited in place between consecutive calls
+    def history_start():
+        x = r.random()
+        if x < 0.4:
+            return gg.expr(r.randrange(1, 4)), "grammar-shaped"
+        if x < 0.6:
+            return g_layout.tree(r.randrange(1, 4)), "partial-layout"
+        if x < 0.8:
+            t, _ = parsed_tree()
+            return (t, "parsed") if t is not None else (gg.expr(2), "grammar-shaped")
+        try:
+            return aht(gg.expr(r.randrange(1, 4))), "result-of-auto_head_tail"
+        except Exception:
+            return gg.expr(2), "grammar-shaped"
+
+    fixed_histories = []
+    for mk in (lambda: T.OrOperation(T.Word("foo"), T.Word("bar")),
+               lambda: T.Group(T.AndOperation(T.Word("a"), T.Word("b"))),
+               lambda: T.Not(T.Word("a")), lambda: T.Range(T.Word("a"), T.Word("b")),
+               lambda: aht(T.OrOperation(T.Word("foo"), T.Word("bar")))):
+        fixed_histories.append(mk())
+    for hi in range(n_hist + len(fixed_histories)):
+        if hi < len(fixed_histories):
+            root, origin = fixed_histories[hi], "fixed"
+        else:
+            root, origin = history_start()
+        steps = r.choice([2, 2, 3])
+        recs, log = [], ["start (%s): %s" % (origin, gentree.describe(root)[:600])]
+        for si in range(steps):
+            if si:
+                if hi < len(fixed_histories) and isinstance(node_at(root, ()), T.BaseOperation):
+                    e = ((), "append", 0, T.Not(T.Word("baz")))
+                else:
+                    e = edit_keeping_shape(T, gg, r, root)
+                if e is not None:
+                    try:
+                        apply_edit(T, root, e)
+                        log.append("edit in place: " + describe_edit(e))
+                    except ValueError:
+                        log.append("edit refused by the children setter")
+                else:
+                    log.append("no edit (leaf)")
+            # consecutive calls on the same root object: nothing else runs between them
+            recs.append((call(root), list(log)))
+            log.append("call %d of auto_head_tail(root)" % (si + 1))
+        for si, (rec, lg) in enumerate(recs):
+            dist["history_steps"] += 1
+            judge(rec, "history-step-%d" % (si + 1), {"history": lg})
+
     res.cases = len(cases)
     res.nontrivial = len(seen)
     res.rule = ("fixed corpus (degenerate operations, partial layout, F4/F15 witnesses, inexpressible shapes) + "
                 "random trees of every class with partial layout + layout-free random trees + layout-free trees "
-                "derived from the grammar with nasty lexemes; non-trivial = distinct tree with more than one node")
+                "derived from the grammar with nasty lexemes + parsed queries edited by hand (operands appended / "
+                "replaced by layout-free nodes, hand-made parents) + histories of 2-3 consecutive calls on one root "
+                "edited in place between the calls; non-trivial = distinct tree with more than one node")
     res.samples = [p["tree"] for p in payloads[10:18]]
     res.distribution = dist
     if not model_ok:
